@@ -15,8 +15,10 @@ def splitStr : Option (List (List Char)) → String
   | none => "HANG"
   | some l => toString l.length ++ String.join (l.map fun f => " " ++ toHex f)
 
-/-- `data` op: tokens are 0..n-1; object ids are assigned per event -/
+/-- `data` op: tokens are 0..n-1; object ids are assigned per event.  The op line is first turned into the event list (the very `Ev`
+    type the theorems speak about), then `runEvents {}` is run on it. -/
 structure DState where
+  evs : List Ev := []
   dt : Data := {}
   nobj : Nat := 0
   funcTok : List (Nat × Nat) := []     -- function object ↦ tokenDef
@@ -29,19 +31,19 @@ def assoc (l : List (Nat × Nat)) (k : Nat) : Option Nat := (l.find? (·.1 == k)
 def dataStep (s : DState) (ev : String) (a : (List Char)) (t : Nat) : Option DState :=
   let s := if s.addrs.contains a then s else { s with addrs := s.addrs ++ [a] }
   let o := s.nobj
-  if ev == "v" then some { s with dt := s.dt.varDecl a t o, nobj := o + 1, varAt := (t, o) :: s.varAt }
-  else if ev == "f" then some { s with dt := s.dt.funcDecl a t o, nobj := o + 1, funcTok := (o, t) :: s.funcTok }
-  else if ev == "e" then some { s with dt := s.dt.enumDecl a t o, nobj := o + 1, enumTok := (o, t) :: s.enumTok }
-  else if ev == "s" then some { s with dt := s.dt.scopeDecl a o, nobj := o + 1 }
-  else if ev == "r" then some { s with dt := s.dt.ref a t }
+  if ev == "v" then some { s with evs := s.evs ++ [.varDecl a t o], nobj := o + 1, varAt := (t, o) :: s.varAt }
+  else if ev == "f" then some { s with evs := s.evs ++ [.funcDecl a t o], nobj := o + 1, funcTok := (o, t) :: s.funcTok }
+  else if ev == "e" then some { s with evs := s.evs ++ [.enumDecl a t o], nobj := o + 1, enumTok := (o, t) :: s.enumTok }
+  else if ev == "s" then some { s with evs := s.evs ++ [.scopeDecl a o], nobj := o + 1 }
+  else if ev == "r" then some { s with evs := s.evs ++ [.ref a t] }
   else if ev == "x" then
     match assoc s.varAt t with
-    | some old => some { s with dt := s.dt.replaceVarDecl old o, nobj := o + 1, varAt := (t, o) :: s.varAt }
+    | some old => some { s with evs := s.evs ++ [.replace old o], nobj := o + 1, varAt := (t, o) :: s.varAt }
     | none => some s
   else none
 
 def dataRun (s : DState) : List String → Option DState
-  | [] => some s
+  | [] => some { s with dt := runEvents {} s.evs }
   | ev :: a :: t :: r =>
     match fromHex a, t.toNat? with
     | some a, some t => (dataStep s ev a t).bind (dataRun · r)
